@@ -3485,6 +3485,8 @@ fn validate_extension_declarations(
     // Each claim may be declared only once per sector: its space must not be counted twice, or a
     // repeated claim could stand in for one that does not allow the new expiration.
     let mut declared_claims_by_sector = BTreeMap::<SectorNumber, BTreeSet<ext::verifreg::ClaimID>>::new();
+    // The earliest end of term among the claims maintained for a sector.
+    let mut max_expiration_by_sector = BTreeMap::<SectorNumber, ChainEpoch>::new();
 
     for decl in &extensions {
         let policy = rt.policy();
@@ -3542,6 +3544,11 @@ fn validate_extension_declarations(
                 // If we are not dropping check expiration does not exceed term max
                 let mut maintain_delta: u64 = 0;
                 if i < first_drop {
+                    // Remember the tightest bound: it applies to every declaration naming the sector.
+                    max_expiration_by_sector
+                        .entry(sc.sector_number)
+                        .and_modify(|e| *e = cmp::min(*e, claim.term_start + claim.term_max))
+                        .or_insert(claim.term_start + claim.term_max);
                     if decl.new_expiration > claim.term_start + claim.term_max {
                         return Err(actor_error!(
                             forbidden,
@@ -3562,6 +3569,23 @@ fn validate_extension_declarations(
                         *maintain += maintain_delta;
                     })
                     .or_insert((claim.size.0, maintain_delta));
+            }
+        }
+    }
+    // Claim space is keyed by sector alone, so a sector whose claims were declared in one declaration
+    // may be named again, without claims, in another. The maintained claims bound that one too.
+    for decl in &extensions {
+        for sector_number in decl.sectors.iter() {
+            if let Some(max_expiration) = max_expiration_by_sector.get(&sector_number) {
+                if decl.new_expiration > *max_expiration {
+                    return Err(actor_error!(
+                        forbidden,
+                        "failed to validate declaration sector={}, maintained claims only allow extension to {} but declared new expiration is {}",
+                        sector_number,
+                        max_expiration,
+                        decl.new_expiration
+                    ));
+                }
             }
         }
     }
